@@ -14,6 +14,7 @@ import PgProofs.NotifySpec
 import PgProofs.NotifyOrder
 import PgProofs.NotifyEdit
 import PgProofs.NotifyBatch
+import PgProofs.NotifyRead
 namespace Pg.C09
 open T
 open Pg.C08 (Atom Key NotifyKind)
@@ -488,6 +489,33 @@ theorem C09_fresh (n : Bool) (root : T) (recv : Path) (op : Op) (hf : Fresh root
     exact applyEdit_fresh root recv n _ hf (fun xs e hxs he y hy => hxs y (editDelSlice_vals a b st he y hy))
   | imul k =>
     exact applyEdit_fresh root recv n _ hf (fun xs e hxs he y hy => hxs y (editIMul_vals k he y hy))
+
+/-! ## Reads of the derived facts, at chosen nodes and moments -/
+
+/-- A read at any node of a fresh tree answers exactly what a fresh computation on the current
+contents of that node gives (whether it comes from the node's memo or is recomputed from the
+children's answers), and the tree — with whatever the read memoised in the subtree — stays fresh. -/
+theorem C09_read (root : T) (p : Path) (hf : Fresh root) :
+    (readAt root p).2 = (getAt root p).map derive ∧ Fresh (readAt root p).1 :=
+  readAt_spec root p hf
+
+/-- FRESHNESS over histories that interleave calls (notified or silent, at any depth) with reads at
+chosen nodes: the tree is fresh after every history … -/
+theorem C09_fresh_history : (hs : List HStep) → (root : T) → Fresh root → (∀ s ∈ hs, s.Admissible OpFresh) →
+    Fresh (runH root hs)
+  | [], root, hf, _ => hf
+  | .call recv n op :: rest, root, hf, hv =>
+    C09_fresh_history rest _ (C09_fresh n root recv op hf (hv (.call recv n op) (by simp)))
+      (fun s hs => hv s (List.mem_cons_of_mem _ hs))
+  | .read p :: rest, root, hf, hv =>
+    C09_fresh_history rest _ (readAt_spec root p hf).2 (fun s hs => hv s (List.mem_cons_of_mem _ hs))
+
+/-- … hence a read made at any node after any such history answers the fresh computation on the
+contents of that moment — whichever nodes were read (memoised) before and whichever were not. -/
+theorem C09_read_after_history (hs : List HStep) (root : T) (p : Path) (hf : Fresh root)
+    (hv : ∀ s ∈ hs, s.Admissible OpFresh) :
+    (readAt (runH root hs) p).2 = (getAt (runH root hs) p).map derive :=
+  (readAt_spec _ p (C09_fresh_history hs root hf hv)).1
 
 /-- A root dict whose cache is filled, holding one leaf. -/
 def exRoot : T :=
